@@ -181,6 +181,12 @@ def cachekey(ctx):
     rep.check(not problems, 'R-CACHEKEY', 'finite_difference.FD_RULES', fd.relpath,
               {'entries_at_import': len(init), 'problems': problems[:3]},
               'empty at import, or every entry == pinv(_fd_matrix(*key))', 'import time', key='cache-seed')
+    # bit-for-bit independence from the cache contents: an entry written as decimal literals cannot be guaranteed to equal
+    # what pinv computes to the last bit, so clearing the cache would change results
+    rep.check(len(init) == 0, 'R-CACHEKEY', 'finite_difference.FD_RULES', fd.relpath,
+              {'entries_at_import': len(init), 'keys': [repr(k) for k in list(init)[:4]]},
+              'the rule cache is empty at import (results must not depend on whether an entry was shipped or computed)',
+              'import time (bit-for-bit clause)', key='cache-nonempty-at-import')
     # writer: after one rule() call with symbolic ratio the cache holds exactly one entry keyed by the arguments of _fd_matrix
     P.clear_cache()
     seen = []
